@@ -6,3 +6,6 @@ export GOFLAGS=-mod=mod GOPROXY=off GOSUMDB=off GOTOOLCHAIN=local
 mkdir -p bin work replays evidence
 (cd engine && go build -o ../bin/gosym .)
 echo "gosym built"
+# differential self test of the term simplifier (3 s); a failure must stop every check
+(cd engine && go test -count=1 -run TestTermSimplifierDifferential . >/dev/null) || { echo "term simplifier self test FAILED"; rm -f bin/gosym; exit 1; }
+echo "term simplifier self test ok"
